@@ -78,7 +78,9 @@ def qual(function):
     """tower::Fq2::mul_assign -> Fq2::mul_assign ; tower::lemma_x -> lemma_x"""
     parts = function.split('::')[1:]
     parts = [p for p in parts if not p.startswith('impl&%')]
-    return '::'.join(parts[-2:]) if len(parts) >= 2 else (parts[-1] if parts else function)
+    if len(parts) >= 2 and parts[-2][:1].isupper():
+        return '::'.join(parts[-2:])
+    return parts[-1] if parts else function
 
 
 def classify(res, text):
